@@ -334,7 +334,26 @@ package decorator
 
 // What save relies on: printing one file does not touch the package's file list, the decorator's
 // file-name table or the write log.
+// Entry precondition of the restorer's public calls: its maps are as NewRestorer made them or as
+// earlier calls left them (non-nil; keys and values allocated, non-nil nodes).
+//@ pred (pr *Restorer) readyInv() bool {
+//@   pr.Ast.Nodes != nil && pr.Dst.Nodes != nil &&
+//@   (forall k dst.Node :: {has(pr.Ast.Nodes, k)} has(pr.Ast.Nodes, k) ==> ref(k) != 0 && allocated(ref(k)) && ref(pr.Ast.Nodes[k]) != 0 && allocated(ref(pr.Ast.Nodes[k]))) &&
+//@   (forall a ast.Node :: {has(pr.Dst.Nodes, a)} has(pr.Dst.Nodes, a) ==> ref(a) != 0 && allocated(ref(a))) &&
+//@   pr.Ast.Objects != nil && pr.Dst.Objects != nil && pr.Ast.Scopes != nil && pr.Dst.Scopes != nil &&
+//@   (forall o *dst.Object :: {has(pr.Ast.Objects, o)} has(pr.Ast.Objects, o) ==> o != nil && allocated(o) && pr.Ast.Objects[o] != nil && allocated(pr.Ast.Objects[o])) &&
+//@   (forall s *dst.Scope :: {has(pr.Ast.Scopes, s)} has(pr.Ast.Scopes, s) ==> s != nil && allocated(s) && pr.Ast.Scopes[s] != nil && allocated(pr.Ast.Scopes[s])) &&
+//@   (forall a *ast.Object :: {has(pr.Dst.Objects, a)} has(pr.Dst.Objects, a) ==> allocated(a)) &&
+//@   (forall a *ast.Scope :: {has(pr.Dst.Scopes, a)} has(pr.Dst.Scopes, a) ==> allocated(a))
+//@ }
+
+//@ func (pr *Restorer) RestoreFile
+//@ requires ready: pr != nil && pr.readyInv()
+//@ ensures ready: pr.readyInv()
+
 //@ func (pr *Restorer) Fprint
+//@ requires ready: pr != nil && pr.readyInv()
+//@ ensures ready: pr.readyInv()
 //@ modifies allbut(heap(Package.Syntax); heap(Package.Decorator); heap(Package.Dir); heap(Decorator.Filenames); elems(*dst.File); map(*dst.File, string))
 
 //@ func (p *Package) save
@@ -345,6 +364,7 @@ package decorator
 //@ ensures failed_write_reported: result == nil ==> (forall j int :: 0 <= j && j < len(p.Syntax) ==> wok(old(nwrites) + j))
 //@ ensures nothing_after_failed_write: forall j int :: 0 <= j && j + 1 < nwrites - old(nwrites) ==> wok(old(nwrites) + j)
 //@ loop 1 invariant count: nwrites == entry(nwrites) + $i && 0 <= $i && $i <= len(p.Syntax)
+//@ loop 1 invariant restorer_ready: r != nil && r.readyInv()
 //@ loop 1 invariant names: forall j int :: 0 <= j && j < $i ==> wname(entry(nwrites) + j) == p.Decorator.Filenames[p.Syntax[j]] && wperm(entry(nwrites) + j) == 438 && wok(entry(nwrites) + j)
 
 // ---------------------------------------------------------------------------------------------
@@ -375,9 +395,14 @@ package decorator
 //@ loop 7 invariant names_distinct: forall p string, q string :: {has(r.packageNames, p), has(r.packageNames, q)} has(r.packageNames, p) && has(r.packageNames, q) && p != q && r.packageNames[p] != "" && r.packageNames[q] != "" ==> r.packageNames[p] != r.packageNames[q]
 
 //@ func (r *FileRestorer) Fprint
+//@ requires restorer: r.Restorer != nil && r.Ast.Nodes != nil && r.Dst.Nodes != nil
+//@ requires maps: r.mapsInv()
+//@ requires objects: r.robjMapsEntry()
+//@ ensures maps_kept: r.mapsInv() && r.robjMapsEntry() && r.Restorer == old(r.Restorer)
 //@ modifies allbut(heap(Package.Syntax); heap(Package.Decorator); heap(Package.Dir); heap(Decorator.Filenames); elems(*dst.File); map(*dst.File, string))
 
 //@ func (r *FileRestorer) RestoreFile
+//@ ensures maps_kept: r.mapsInv() && r.robjMapsEntry() && r.Restorer == old(r.Restorer)
 //@ modifies allbut(heap(Package.Syntax); heap(Package.Decorator); heap(Package.Dir); heap(Decorator.Filenames); elems(*dst.File); map(*dst.File, string))
 //@ ensures error_result: err != nil ==> result == nil
 //@ requires restorer: r.Restorer != nil && r.Ast.Nodes != nil && r.Dst.Nodes != nil
@@ -566,15 +591,15 @@ package decorator
 // Assumed for now (bodies not under contract): building and linking the fragment list reads the ast and
 // the file set and writes only the file decorator's own tables.
 //@ func (f *fileDecorator) fragment
-//@ modifies allbut(map(ast.Node, dst.Node); map(dst.Node, ast.Node); heap(Decorator.Map); heap(fileDecorator.Decorator); heap(Decorator.Resolver); heap(Decorator.Path); heap(Decorator.Filenames); heap(Decorator.Fset); map(*dst.File, string))
+//@ modifies allbut(map(ast.Node, dst.Node); map(dst.Node, ast.Node); heap(Decorator.Map); heap(fileDecorator.Decorator); heap(Decorator.Resolver); heap(Decorator.Path); heap(Decorator.Filenames); heap(Decorator.Fset); map(*dst.File, string); heap(fileDecorator.before); heap(fileDecorator.after); heap(fileDecorator.decorations); map(*ast.Object, *dst.Object); map(*dst.Object, *ast.Object); map(*ast.Scope, *dst.Scope); map(*dst.Scope, *ast.Scope))
 
 // The generated fragment collector (decorator-fragment-generated.go) recurses over the ast with the same frame.
 //@ func (f *fileDecorator) addNodeFragments
-//@ modifies allbut(map(ast.Node, dst.Node); map(dst.Node, ast.Node); heap(Decorator.Map); heap(fileDecorator.Decorator); heap(Decorator.Resolver); heap(Decorator.Path); heap(Decorator.Filenames); heap(Decorator.Fset); map(*dst.File, string))
+//@ modifies allbut(map(ast.Node, dst.Node); map(dst.Node, ast.Node); heap(Decorator.Map); heap(fileDecorator.Decorator); heap(Decorator.Resolver); heap(Decorator.Path); heap(Decorator.Filenames); heap(Decorator.Fset); map(*dst.File, string); heap(fileDecorator.before); heap(fileDecorator.after); heap(fileDecorator.decorations); map(*ast.Object, *dst.Object); map(*dst.Object, *ast.Object); map(*ast.Scope, *dst.Scope); map(*dst.Scope, *ast.Scope))
 
 
 //@ func (f *fileDecorator) link
-//@ modifies allbut(map(ast.Node, dst.Node); map(dst.Node, ast.Node); heap(Decorator.Map); heap(fileDecorator.Decorator); heap(Decorator.Resolver); heap(Decorator.Path); heap(Decorator.Filenames); heap(Decorator.Fset); map(*dst.File, string); heap(fileDecorator.before); heap(fileDecorator.after); heap(fileDecorator.decorations))
+//@ modifies allbut(map(ast.Node, dst.Node); map(dst.Node, ast.Node); heap(Decorator.Map); heap(fileDecorator.Decorator); heap(Decorator.Resolver); heap(Decorator.Path); heap(Decorator.Filenames); heap(Decorator.Fset); map(*dst.File, string); heap(fileDecorator.before); heap(fileDecorator.after); heap(fileDecorator.decorations); map(*ast.Object, *dst.Object); map(*dst.Object, *ast.Object); map(*ast.Scope, *dst.Scope); map(*dst.Scope, *ast.Scope))
 
 //@ pred (d *Decorator) decMapsInv() bool {
 //@   d.Dst.Nodes != nil && d.Ast.Nodes != nil && d.Filenames != nil &&
@@ -582,8 +607,22 @@ package decorator
 //@   (forall x dst.Node :: {has(d.Ast.Nodes, x)} has(d.Ast.Nodes, x) ==> ref(x) != 0 && allocated(ref(x)))
 //@ }
 
+//@ pred (d *Decorator) decObjInv() bool {
+//@   d.Dst.Objects != nil && d.Ast.Objects != nil && d.Dst.Scopes != nil && d.Ast.Scopes != nil &&
+//@   (forall o *ast.Object :: {has(d.Dst.Objects, o)} has(d.Dst.Objects, o) ==> o != nil && allocated(o) && d.Dst.Objects[o] != nil && allocated(d.Dst.Objects[o])) &&
+//@   (forall s *ast.Scope :: {has(d.Dst.Scopes, s)} has(d.Dst.Scopes, s) ==> s != nil && allocated(s) && d.Dst.Scopes[s] != nil && allocated(d.Dst.Scopes[s])) &&
+//@   (forall x *dst.Object :: {has(d.Ast.Objects, x)} has(d.Ast.Objects, x) ==> allocated(x)) &&
+//@   (forall x *dst.Scope :: {has(d.Ast.Scopes, x)} has(d.Ast.Scopes, x) ==> allocated(x))
+//@ }
+
+// Entry preconditions: the decorator's maps are as NewDecorator made them or as earlier calls left them.
+//@ func (d *Decorator) DecorateFile
+//@ requires maps: d.decMapsInv()
+//@ requires objects: d.decObjInv()
+
 //@ func (d *Decorator) DecorateNode
 //@ requires maps: d.decMapsInv()
+//@ requires objects: d.decObjInv()
 //@ ensures error_result: err != nil ==> result == nil
 //@ loop 1 invariant maps: d.decMapsInv()
 
